@@ -110,6 +110,7 @@ type vnNet struct {
 	cnt map[string]*vnCnt
 	// sync streams
 	syncOpen int64
+	forgeN   int64 // forged sync answers so far (selects the next forgery kind)
 	parkedRun func(addr string) int64 // goroutines of the run loop parked at a gate
 	info     *dchain.Info
 	rng      *rand.Rand
@@ -427,12 +428,15 @@ func (c *vnClient) SyncChain(ctx context.Context, p net.Peer, in *proto.SyncRequ
 			if !vn.chained {
 				prev = nil
 			}
-			kind := int(in.FromRound+uint64(to.idx)) % 3
+			// every forged answer uses the next kind, so that each kind is tried against each victim state
+			kind := int(atomic.AddInt64(&vn.forgeN, 1)-1) % 4
 			switch kind {
 			case 0: // garbage signature for the requested round
 				ch <- &proto.BeaconPacket{Round: in.FromRound, PreviousSignature: prev, Signature: junk, Metadata: md}
 			case 1: // the victim's own last beacon relabelled as the next round
 				ch <- &proto.BeaconPacket{Round: in.FromRound, PreviousSignature: prev, Signature: last.Signature, Metadata: md}
+			case 2: // the victim's own last beacon sent again under the next round, previous signature untouched
+				ch <- &proto.BeaconPacket{Round: in.FromRound, PreviousSignature: last.PreviousSig, Signature: last.Signature, Metadata: md}
 			default: // right shape, foreign beacon id
 				ch <- &proto.BeaconPacket{Round: in.FromRound, PreviousSignature: prev, Signature: junk, Metadata: &proto.Metadata{BeaconID: "other"}}
 			}
